@@ -456,7 +456,7 @@ def load_sim_traces(dirpath, prefix="tr"):
     return out
 
 
-def simulate_behaviours(module, cfg, num, depth, seed, name="sim", timeout=900, cwd=SPEC, jvm_props=()):
+def simulate_behaviours(module, cfg, num, depth, seed, name="sim", timeout=300, cwd=SPEC, jvm_props=()):
     """run `tlc -simulate` and return the behaviours it generated (and the TLCResult)"""
     d = os.path.join(OUT, "sim", "%s.%d.%s" % (name, os.getpid(), uuid.uuid4().hex[:8]))
     os.makedirs(d)
